@@ -413,6 +413,28 @@ def check(ctx):
         case_pow((l1, up, e))
         case_pow((l2, up, e))
 
+    def case_sqrt_bigsquare():
+        """bounds that are huge integers next to a perfect square whose root is beyond 2^53: the scalar function need not be
+        exact there, but the interval built from it is ordered and contains sqrt of every point — in particular of the square"""
+        k = rng.choice(["(2^53+1)", "(10^20+1)", "(3*2^60+7)", "(2^64-1)", "(10^17+3)"])
+        d = rng.choice(["1", "2", "3"])
+        for txt in ("sqrt([%s^2, %s^2+%s])" % (k, k, d), "sqrt([%s^2-%s, %s^2])" % (k, d, k), "sqrt([%s^2-%s, %s^2+%s])" % (k, d, k, d)):
+            if not fresh(txt):
+                continue
+            res = real.value(txt)
+            ctx.count(txt, bucket="sqrt/next-to-a-huge-square")
+            wf(txt, res)
+            if res[0] == "err" and (res[1].startswith("py:") or res[1] == "diverges"):
+                ctx.violation("errclass:" + txt, txt, "a value or a diagnosed error", "err " + res[1], HOW % txt)
+        for txt in ("sqrt(%s^2) in sqrt([1, %s^2+%s])" % (k, k, d), "sqrt(%s^2) in sqrt([%s^2-%s, %s^2+%s])" % (k, k, d, k, d),
+                    "sqrt(%s^2+%s) in sqrt([%s^2, %s^2+%s])" % (k, d, k, k, d)):
+            if not fresh(txt):
+                continue
+            res = real.value(txt)
+            ctx.count(txt, bucket="sqrt/point-of-the-operand")
+            if res[0] != "ok" or res[1] != 1:
+                ctx.violation("encl:" + txt, txt, "1 (the operand contains that point, so the result contains its square root)", canon_result(real, res), HOW % txt)
+
     def case_unary():
         a, b, shape = gen_interval(rng)
         I = operand(a, b)
@@ -672,7 +694,7 @@ def check(ctx):
         add_case("%s %s %s" % (form, C(x), C(y)), txt, res, "pm")
 
     kinds = [(case_binop, 26), (case_pow, 18), (case_unary, 14), (case_log, 10), (case_cmp, 16),
-             (case_in, 5), (case_eq, 5), (case_eq_scalar, 3), (case_near_reversed, 2), (case_pow_twins, 2), (case_minmax, 6), (case_pm, 4)]
+             (case_in, 5), (case_eq, 5), (case_eq_scalar, 3), (case_near_reversed, 2), (case_pow_twins, 2), (case_sqrt_bigsquare, 1), (case_minmax, 6), (case_pm, 4)]
     fns = [f for f, w in kinds for _ in range(w)]
 
     # corpus first: the two repaired defects and hand-picked edges, as plain text through the same oracles
